@@ -224,6 +224,8 @@ def make_oracle(classes):
         if outl.strip() == "oob":
             return None       # only the model prints this; handled as a difference
         rsp, kv = cc.rsp_of(outl)
+        if "connection-descriptor-closed-" in outl:
+            return "the request path closed the connection's descriptor %s times (must be exactly once: a second close hits whichever connection got that number meanwhile)" % outl.split("-")[-2]
         if "request-not-refused-at-once" in outl:
             return "a request that must be refused from its header alone kept the daemon busy (%s)" % outl.split()[-1]
         if cls == "over-limit" and rsp.raw:
